@@ -86,7 +86,7 @@ pub(crate) mod verif_environment {
     macro_rules! c16_env {
         ($name:ident, $which:expr) => {
             #[cfg_attr(kani, kani::proof)]
-            #[cfg_attr(kani, kani::unwind(12))]
+            #[cfg_attr(kani, kani::unwind(70))]
             #[cfg_attr(kani, kani::stub(std::env::var, crate::config::environment::verif_environment::stub_env_var))]
             #[cfg_attr(kani, kani::stub(std::thread::available_parallelism, crate::config::environment::verif_environment::stub_available_parallelism))]
             #[cfg_attr(not(kani), test)]
